@@ -2,6 +2,7 @@ from __future__ import annotations
 
 import ssl
 import sys
+import time
 import types
 import typing
 
@@ -214,6 +215,7 @@ class ConnectionPool(RequestInterface):
 
         timeouts = request.extensions.get("timeout", {})
         timeout = timeouts.get("pool", None)
+        deadline = None if timeout is None else time.monotonic() + timeout
 
         with self._optional_thread_lock:
             # Add the incoming request to our request queue.
@@ -229,6 +231,10 @@ class ConnectionPool(RequestInterface):
                 self._close_connections(closing)
 
                 # Wait until this request has an assigned connection.
+                # The pool timeout covers the total time spent waiting, including
+                # after the request has been returned to the queue.
+                if deadline is not None:
+                    timeout = max(deadline - time.monotonic(), 0.0)
                 connection = pool_request.wait_for_connection(timeout=timeout)
 
                 try:
